@@ -42,3 +42,28 @@ func Release(p unsafe.Pointer) { RaceRelease(p) }
 
 //go:norace
 func ReleaseMerge(p unsafe.Pointer) { RaceReleaseMerge(p) }
+
+// Touch records an operation on an object in the happens-before state without a scheduling
+// point. Used for pure releases (unlock, WaitGroup.Done): a release is a left mover, so an
+// execution preempted just before it is equivalent to one preempted just after it.
+//
+//go:norace
+func Touch(kind OpKind, cell *uint64) {
+	s := inSched()
+	if s == nil || s.aborting || s.cur == nil {
+		return
+	}
+	t := s.cur
+	s.Steps++
+	if s.KeepTrace {
+		s.Trace = append(s.Trace, TraceEv{t.id, kind.String()})
+	}
+	t.hb = mix(t.hb, uint64(kind)+1)
+	if cell != nil {
+		if *cell == 0 {
+			*cell = NewObj()
+		}
+		t.hb = mix(t.hb, *cell)
+		*cell = mix(*cell, t.hb)
+	}
+}
